@@ -4,6 +4,9 @@ Every case is ONE decision problem written down three ways and evaluated by the 
   P1  as generated;
   P2  alternatives listed in the order sigma, criteria (with objectives and weights) in the order tau,
       alternatives and criteria renamed by an injective map;
+      -- in two thirds of the cases built from scratch (mkdm), in one third obtained FROM THE DecisionMatrix OBJECT OF P1
+      with the library's own public selection API (dm[[criteria]], dm.loc[...], dm.iloc[...], dm.loc[alts, crits], chained
+      in either order; a renaming is then applied with dm.copy(alternatives=..., criteria=...));
   P3  P1 with every weight multiplied by c > 0 (methods homogeneous in the weights: all but ELECTRE).
 The results are compared BY LABEL (property oracle).  For kernel-only cases the Lean model (`agg`) is
 evaluated on the three presentations too: it must agree with itself exactly at Rat and with the
@@ -28,7 +31,11 @@ RULE = (
     "machine keeps every step inside its domain). 2..12 alternatives, 2..6 criteria, never square, ties, duplicated rows, dyadic "
     "and arbitrary doubles; for the homogeneous methods 40% of the cases hold a pair of alternatives with close but distinct scores "
     "(one row a copy of another improved by a relative 1e-6..1e-3 on every / one criterion) and 20% have the weights of the first "
-    "presentation themselves scaled by 2^+-20..50. Both presentations run on the real code and are compared by label: scores within 1e-9*scale, ranks only "
+    "presentation themselves scaled by 2^+-20..50. The second presentation is built from scratch (mkdm) in two thirds of the cases "
+    "and in one third derived from the DecisionMatrix object of the first one with the public selection API: dm[[criteria in the "
+    "new order]], dm.loc[alternatives in the new order], dm.loc[:, criteria], dm.iloc[rows], dm.iloc[:, cols], the two-axis forms "
+    "dm.loc[alts, crits] / dm.iloc[rows, cols] and chains of a row and a column selection in either order (renaming, if any, by "
+    "dm.copy(alternatives=, criteria=)). Both presentations run on the real code and are compared by label: scores within 1e-9*scale, ranks only "
     "through the pairwise relation on pairs whose first-presentation scores differ by more than 2e-9*scale, ELECTRE1 kernel exactly "
     "when no concordance / discordance value is within the margin of a threshold. Non-trivial: the second presentation differs "
     "from the first (non-identity permutation or renaming) or c != 1."
@@ -338,6 +345,12 @@ def _norm_weights(dm):
         dm["weights"] = [x / s for x in w]
 
 
+# the library's own ways of listing the alternatives / criteria of an existing DecisionMatrix in another order
+# (rows step, columns step, which goes first); "2" = both axes in one call
+SELECTIONS = ["getitem", "getitem", "getitem>loc", "loc>getitem", "getitem>iloc", "iloc>getitem", "loc2", "loc2", "iloc2", "iloc2",
+              "loc>loccols", "loccols>loc", "iloc>iloccols", "iloccols>iloc", "loccols>iloc", "iloccols>loc"]
+
+
 def make_case(rng, kind, max_m=11):
     spec = M.random_spec(rng, KERNEL_NAMES)
     name = spec["name"]
@@ -387,8 +400,10 @@ def make_case(rng, kind, max_m=11):
         _norm_weights(dm)
     mode = rng.choice(["all", "all", "all", "rows", "cols", "names"])
     ckind, c = _multiplier(rng)
+    # how the second presentation comes into being: rebuilt from scratch, or selected out of the first DecisionMatrix
+    via = rng.choice(SELECTIONS) if rng.random() < 1 / 3 else "mkdm"
     return {
-        "kind": kind, "spec": spec, "steps": steps, "dm": dm, "mode": mode,
+        "kind": kind, "spec": spec, "steps": steps, "dm": dm, "mode": mode, "via": via,
         "sigma": _perm(rng, m, identity=mode in ("cols", "names")),
         "tau": _perm(rng, n, identity=mode in ("rows", "names")),
         "alts2": _relabel(rng, dm["alternatives"], G.LABEL_POOL_ALT) if mode in ("all", "names") else list(dm["alternatives"]),
@@ -422,6 +437,34 @@ def presentation2(case):
     }
 
 
+def select2(dm1, case):
+    """P2 obtained from the DecisionMatrix of P1 through the public selection API: the alternatives listed in the order sigma,
+    the criteria in the order tau (objectives and weights must follow their criteria), then renamed"""
+    d, sg, tau = case["dm"], case["sigma"], case["tau"]
+    alts = [d["alternatives"][i] for i in sg]
+    crits = [d["criteria"][j] for j in tau]
+    ops = {
+        "getitem": lambda x: x[crits],
+        "loc": lambda x: x.loc[alts],
+        "iloc": lambda x: x.iloc[list(sg)],
+        "loccols": lambda x: x.loc[:, crits],
+        "iloccols": lambda x: x.iloc[:, list(tau)],
+        "loc2": lambda x: x.loc[alts, crits],
+        "iloc2": lambda x: x.iloc[list(sg), list(tau)],
+    }
+    dm2 = dm1
+    steps = case["via"].split(">")
+    if steps == ["getitem"]:  # dm[[...]] selects criteria only: the alternatives are re-listed first or afterwards
+        steps = ["getitem", "loc"] if (sg[0] + tau[0]) % 2 else ["loc", "getitem"]
+    for s in steps:
+        dm2 = ops[s](dm2)
+    a2 = [case["alts2"][i] for i in sg]
+    c2 = [case["crits2"][j] for j in tau]
+    if a2 != alts or c2 != crits:
+        dm2 = dm2.copy(alternatives=a2, criteria=c2)
+    return dm2
+
+
 def presentation3(case):
     dm = dict(case["dm"])
     dm["weights"] = [float(w * case["c"]) for w in case["dm"]["weights"]]
@@ -435,13 +478,14 @@ EXTRAS = {
 }
 
 
-def _run(dmdict, case, record):
+def _run(dmdict, case, record, build=None):
+    """`build`: a callable returning the DecisionMatrix to evaluate (default: made from scratch out of `dmdict`)"""
     from skcriteria.pipeline import mkpipe
 
     spec, steps = case["spec"], case["steps"]
     out = {"amp": 1.0}
     try:
-        dm = G.mkdm(dmdict)
+        dm = G.mkdm(dmdict) if build is None else build()
         dec = M.build(spec)
         final = dm
         if steps:
@@ -478,7 +522,18 @@ def _run(dmdict, case, record):
 
 def observe(case):
     with M.quiet():
-        o = {"p1": _run(case["dm"], case, True), "p2": _run(presentation2(case), case, True)}
+        first = {}
+
+        def build1():
+            first["dm"] = G.mkdm(case["dm"])
+            return first["dm"]
+
+        o = {"p1": _run(case["dm"], case, True, build=build1)}
+        if case.get("via", "mkdm") != "mkdm" and "dm" in first:
+            # the user's route: the very object that was just evaluated is re-listed with dm[[...]] / .loc / .iloc
+            o["p2"] = _run(None, case, True, build=lambda: select2(first["dm"], case))
+        else:
+            o["p2"] = _run(presentation2(case), case, True)
         if case["spec"]["name"] in HOMOGENEOUS:
             o["p3"] = _run(presentation3(case), case, True)  # the data that reaches the method: the scale of P3's own scores
         return o
@@ -881,7 +936,9 @@ def nontrivial(case, obs):
 def tags(case, obs):
     name = case["spec"]["name"]
     t = ["kind:" + case["kind"], "method:" + name, "family:" + case["dm"].get("family", "?"), "mode:" + case["mode"],
-         "c:" + case["c_kind"]]
+         "c:" + case["c_kind"], "via:" + case.get("via", "mkdm")]
+    if case.get("via", "mkdm") != "mkdm":
+        t.append("via:selection-api")
     if name == "TOPSIS":
         t.append("metric:" + case["spec"].get("metric", "euclidean"))
     for s in case["steps"]:
